@@ -9,7 +9,7 @@ import os
 import random
 import warnings
 
-from hypergraph import AsyncRunner, SyncRunner
+from hypergraph import AsyncRunner, Graph, SyncRunner
 
 from .. import build, drive, enginecheck, gen, predict, tlc
 from .. import ir as IR
@@ -368,6 +368,35 @@ def run_pool(ctx, thorough):
     ctx.bump("pool_orders_replayed", n_orders)
 
 
+def fanout_boundary(ctx):
+    """The unbounded fan-out guard of AsyncRunner.map ("keep inputs at <= 10000" without max_concurrency): EXACTLY 10000
+    items are one result per item in input order, 10001 are refused before anything runs."""
+    n_calls = [0]
+
+    def body(x):
+        n_calls[0] += 1
+        return x
+
+    from hypergraph.nodes.function import FunctionNode
+    g = Graph([FunctionNode(body, name="F", output_name="y")])
+    for n, accepted in ((10000, True), (10001, False)):
+        n_calls[0] = 0
+        try:
+            with warnings.catch_warnings():
+                warnings.simplefilter("ignore")
+                rs = asyncio.run(AsyncRunner().map(g, {"x": list(range(n))}, map_over="x"))
+            out = ("returned", len(rs), [r.values.get("y") for r in rs[:2]] + [rs[-1].values.get("y")], sorted({r.status.value for r in rs}))
+        except Exception as e:  # noqa: BLE001
+            out = ("raised", type(e).__name__, str(e)[:100], n_calls[0])
+        ctx.count()
+        ctx.traces()
+        wit = {"items": n, "max_concurrency": None, "observed": list(map(str, out))}
+        if accepted and out != ("returned", n, [0, 1, n - 1], ["completed"]):
+            ctx.violation("unbounded-map-at-the-documented-limit", wit, f"map over exactly {n} items without max_concurrency: {out}")
+        if not accepted and not (out[0] == "raised" and out[1] == "ValueError" and out[3] == 0):
+            ctx.violation("unbounded-map-over-the-limit-not-refused", wit, f"map over {n} items without max_concurrency: {out}")
+
+
 def map_options(ctx):
     """runner.map passes the per-run options on to every item: item i of map(..., select, on_missing) is exactly
     run(item i, select, on_missing) (the specification of map is one run per combination; what a single run does with
@@ -454,6 +483,7 @@ def run(tier, seed):
     ctx.sample({"mapping_node_case": pairs[len(pairs) // 2][1], "runner_map_case": mj[len(mj) // 2][1],
                 "model_results": [{"status": r["status"], "values": r["values"]} for r in res[mj[len(mj) // 2][0]["id"]]["results"]][:3]})
     map_options(ctx)
+    fanout_boundary(ctx)
     # C. worker pool completion orders
     run_pool(ctx, thorough)
     ctx.assumptions += ["Combos / list collection are defined in HGEngine.tla (Combos, ExecNode map branch) and evaluated by TLC; runner.map expectations = one RunProg per combination (Predict!ObserveMap)",
